@@ -23,6 +23,7 @@ type EntrySpec struct {
 	MaxPaths     int      `json:"max_paths"`
 	MaxSteps     int      `json:"max_steps"`
 	SchedAll     bool     `json:"sched_all"`
+	SchedYield   bool     `json:"sched_yield"`
 	Preempt      int      `json:"preempt"`
 	MapOrder     bool     `json:"map_order"`
 	AllowBlocked bool     `json:"allow_blocked"`
@@ -303,6 +304,7 @@ func cmdCheck(args []string) {
 			}
 			cfg.MaxPaths = es.MaxPaths
 			cfg.SchedAll = es.SchedAll
+			cfg.SchedYield = es.SchedYield
 			cfg.Preempt = es.Preempt
 			cfg.MapOrderAll = es.MapOrder
 			cfg.AllowBlocked = es.AllowBlocked
@@ -564,7 +566,7 @@ func cmdReplay(args []string) {
 			prog.summarize[s] = true
 		}
 		cfg := &RunConfig{Entry: v.Entry, MaxSteps: 4000000, Workers: 1, TimeoutS: 300, SolverMs: 10000, MapOrderMax: 3, MaxConcretize: 64,
-			Prefix: v.Decisions, MaxPaths: 1, StopOnViolation: true, SchedAll: found.SchedAll, Preempt: found.Preempt,
+			Prefix: v.Decisions, MaxPaths: 1, StopOnViolation: true, SchedAll: found.SchedAll, SchedYield: found.SchedYield, Preempt: found.Preempt,
 			MapOrderAll: found.MapOrder, AllowBlocked: found.AllowBlocked, HashTransparent: found.HashTransparent}
 		res := Explore(prog, cfg)
 		for _, nv := range res.Violations {
